@@ -208,6 +208,17 @@ def amalgamateCsr {α} (parts : List (Mat α)) : Mat α :=
 
 /-! ### `get_batch` -/
 
+/-- the copy loop shared by the un-sort step of `_load_disjoint_csr`,
+`shuffle_csr_h5ad_rows` and `subset_csc_h5ad_columns`: major slices `order[0], order[1], …` written one
+after the other, `dst_indptr[k] = dst0` -/
+def gatherMajors {α} (M : Mat α) (order : List Nat) : List Nat × List Nat × List α :=
+  let segs := order.map fun o =>
+    (slice M.indices (ptr M.indptr o) (ptr M.indptr (o + 1)),
+     slice M.data (ptr M.indptr o) (ptr M.indptr (o + 1)))
+  ((List.range order.length).map fun k => ((segs.take k).map (·.1.length)).sum,
+   segs.flatMap (·.1), segs.flatMap (·.2))
+
+
 /-- `_load_disjoint_csr(row_index_list, data, indices, indptr)` -/
 def loadDisjoint {α} (M : Mat α) (rows : List Nat) : Except SpErr (Mat α) := do
   let sortedDex := argsort rows
@@ -219,15 +230,10 @@ def loadDisjoint {α} (M : Mat α) (rows : List Nat) : Except SpErr (Mat α) := 
   -- result is row `inverse_argsort[ii]` of `merged`
   if merged.indptr.length != rows.length + 1 then .error .badRows
   else
-    let segs := (List.range rows.length).map fun ii =>
-      let pos := sortedDex.idxOf ii
-      (slice merged.indices (ptr merged.indptr pos) (ptr merged.indptr (pos + 1)),
-       slice merged.data (ptr merged.indptr pos) (ptr merged.indptr (pos + 1)))
-    let ind := segs.flatMap (·.1)
-    let dat := segs.flatMap (·.2)
+    -- `inverse_argsort[ii]` = position of `ii` in `sorted_dex`;
     -- final_indptr[ii] = data_ct (running), final_indptr[-1] = len(final_data)
-    let starts := (List.range rows.length).map fun ii => ((segs.take ii).map (·.1.length)).sum
-    return ⟨starts ++ [dat.length], ind, dat⟩
+    let g := gatherMajors merged ((List.range rows.length).map fun ii => sortedDex.idxOf ii)
+    return ⟨g.1 ++ [g.2.2.length], g.2.1, g.2.2⟩
 
 /-- `CSRRowIterator.get_batch(row_idx)` (dense result) -/
 def csrGetBatch {α} (zero : α) (M : Mat α) (nCols : Nat) (rows : List Nat) :
@@ -394,16 +400,6 @@ def transposeV2 {α} (M : Mat α) (indicesMax nProc : Nat) (B : Budget) :
     return joinParts parts
 
 /-! ### file-level reshaping (`anndata_utils.py`) -/
-
-/-- the copy loop shared by `shuffle_csr_h5ad_rows` and
-`subset_csc_h5ad_columns`: major slices `order[0], order[1], …` written one
-after the other, `dst_indptr[k] = dst0` -/
-def gatherMajors {α} (M : Mat α) (order : List Nat) : List Nat × List Nat × List α :=
-  let segs := order.map fun o =>
-    (slice M.indices (ptr M.indptr o) (ptr M.indptr (o + 1)),
-     slice M.data (ptr M.indptr o) (ptr M.indptr (o + 1)))
-  ((List.range order.length).map fun k => ((segs.take k).map (·.1.length)).sum,
-   segs.flatMap (·.1), segs.flatMap (·.2))
 
 /-- `shuffle_csr_h5ad_rows(new_row_order)`: `dst_indptr[-1] = src_indptr[-1]` -/
 def shuffleRows {α} (M : Mat α) (order : List Nat) : Mat α :=
